@@ -1,8 +1,126 @@
-/- line-protocol handlers for C07 (stub: not built yet) -/
+/- line-protocol handlers for C07 (Clifford tableau simulation) -/
 import Driver.Loop
+import NumqiModel.Clifford
 
 namespace Numqi.Driver.C07
+open Numqi Numqi.Clifford
 
-def handle (_args : List String) : String := "bad-op"
+def natOfBits (l : List Bool) : Nat := l.foldr (fun b acc => 2 * acc + b.toNat) 0
+def bitsOfNat (m v : Nat) : List Bool := (List.range m).map fun j => v.testBit j
+def vecStr (m v : Nat) : String := bitsStr (bitsOfNat m v)
+
+def parseVec? (m : Nat) (s : String) : Option Nat := do
+  let l ← parseBits? s
+  if l.length ≠ m then none else some (natOfBits l)
+
+/-- `"0110;1001;…"` (rows of `cli_mat`) ↦ list of packed columns -/
+def parseCols? (m : Nat) (s : String) : Option (List Nat) := do
+  let rows ← (s.splitOn ";").mapM (parseVec? m)
+  if rows.length ≠ m then none
+  else some ((List.range m).map fun j =>
+    (List.range m).foldl (fun acc a => if (rows.getD a 0).testBit j then acc ^^^ 2 ^ a else acc) 0)
+
+/-- rows of `cli_mat` from the packed columns -/
+def colsStr (m : Nat) (cols : List Nat) : String :=
+  ";".intercalate ((List.range m).map fun a => bitsStr ((List.range m).map fun j => (cols.getD j 0).testBit a))
+
+def tabStr (t : Tab) : String := s!"{vecStr (2 * t.n) t.r} {colsStr (2 * t.n) t.cols}"
+
+def parsePauli? (len : Nat) (s : String) : Option PauliB := do
+  let l ← parseBits? s
+  if l.length ≠ len + 2 then none
+  else some ⟨l.getD 0 false, l.getD 1 false, natOfBits (l.drop 2)⟩
+
+def pauliStr (len : Nat) (p : PauliB) : String := bitsStr ([p.s0, p.s1] ++ bitsOfNat len p.v)
+
+def parseMat? (m : Nat) (s : String) : Option Mat := do
+  let es ← parseGIntList? s
+  if es.length ≠ m * m then none
+  else some ((List.range m).map fun i => (List.range m).map fun j => es.getD (i * m + j) 0)
+
+def matStr (A : Mat) : String := gintListStr A.flatten
+
+def errStr : Err → String
+  | .assert => "error:assert"
+  | .value => "error:ValueError"
+
+def gateStr (g : Gate) : String := g.key.name ++ ":" ++ ":".intercalate (g.idx.map toString)
+
+def outStr : Out → String
+  | .unit => "ok"
+  | .err e => errStr e
+  | .tab t => s!"{t.n} {tabStr t}"
+  | .pauli n p => pauliStr (2 * n) p
+  | .gates gs => if gs.isEmpty then "-" else ",".intercalate (gs.map gateStr)
+
+def parseOp? (s : String) : Option Op :=
+  match s.splitOn ":" with
+  | ["q"] => some .query
+  | ["e"] => some .exportCirc
+  | ["a", bits] => do
+      let l ← parseBits? bits
+      if l.length < 2 then none
+      else some (.applyPauli ⟨l.getD 0 false, l.getD 1 false, natOfBits (l.drop 2)⟩ (l.length - 2))
+  | "I" :: _ => some .gateI
+  | name :: args => do
+      let key ← GateKey.ofName? name
+      let args ← args.mapM String.toInt?
+      some (.append key args)
+  | _ => none
+
+def parseQs? (s : String) : Option (List Nat) := (s.splitOn ",").mapM String.toNat?
+
+def handle (args : List String) : String :=
+  match args with
+  | ["apply", n, p, r, S] => Id.run do
+      let some n := n.toNat? | return "bad-op"
+      if n = 0 then return "bad-op"
+      let some p := parsePauli? (2 * n) p | return "bad-op"
+      let some r := parseVec? (2 * n) r | return "bad-op"
+      let some cols := parseCols? (2 * n) S | return "bad-op"
+      return pauliStr (2 * n) (applyOnPauli p ⟨n, r, cols⟩)
+  | ["mul", n, rx, Sx, ry, Sy] => Id.run do
+      let some n := n.toNat? | return "bad-op"
+      if n = 0 then return "bad-op"
+      let some rx := parseVec? (2 * n) rx | return "bad-op"
+      let some cx := parseCols? (2 * n) Sx | return "bad-op"
+      let some ry := parseVec? (2 * n) ry | return "bad-op"
+      let some cy := parseCols? (2 * n) Sy | return "bad-op"
+      match multiply ⟨n, rx, cx⟩ ⟨n, ry, cy⟩ with
+      | none => return "error:assert"
+      | some z => return tabStr z
+  | ["a2f", k, M] => Id.run do
+      let some k := k.toNat? | return "bad-op"
+      if k = 0 || k > 4 then return "bad-op"
+      let some U := parseMat? (2 ^ k) M | return "bad-op"
+      match arrayToF2 k U with
+      | none => return "error:assert"
+      | some t => return tabStr t
+  | ["gate", key] => Id.run do
+      let some key := GateKey.ofName? key | return "bad-op"
+      return s!"{key.scale.toStr} {matStr key.mat}"
+  | ["dagf2", key] => Id.run do
+      let some key := GateKey.ofName? key | return "bad-op"
+      match basicDaggerF2 key with
+      | none => return "error:assert"
+      | some t => return tabStr t
+  | ["conj", n, key, qs, p] => Id.run do
+      -- F2 form of G† P G for the gate on qubits `qs` of `n`, through dense matrices
+      let some n := n.toNat? | return "bad-op"
+      if n = 0 || n > 4 then return "bad-op"
+      let some key := GateKey.ofName? key | return "bad-op"
+      let some qs := parseQs? qs | return "bad-op"
+      if qs.length ≠ key.arity || qs.any (· ≥ n) || (qs.length = 2 && qs.getD 0 0 = qs.getD 1 0) then return "bad-op"
+      let some p := parsePauli? (2 * n) p | return "bad-op"
+      let m := 2 ^ n
+      let G := gateOnN n key.mat qs
+      let W := Mat.mul m (Mat.mul m (Mat.dagger m G) (pauliMat n p)) G
+      match ofFullMatrix n key.scale W with
+      | none => return "error:assert"
+      | some q => return pauliStr (2 * n) q
+  | ["hist", ops] => Id.run do
+      let some ops := (if ops = "-" then some [] else (ops.splitOn ";").mapM parseOp?) | return "bad-op"
+      return "|".intercalate ((Clifford.run St.init ops).map outStr)
+  | _ => "bad-op"
 
 end Numqi.Driver.C07
